@@ -465,6 +465,19 @@ pub fn main(args: &util::Args) {
                 texts.push((format!("mut{}", i), "mutants".into(), mutate_tokens(b, &mut r)));
             }
         }
+        "crlf" => {
+            // the same program with LF and with CRLF line ends must be read as the same tree
+            let mut bases: Vec<(String, String)> = crate::c12::corpus_files().into_iter().filter(|(_, t)| !t.contains('\r')).collect();
+            let mut rng = Rng::new(args.seed ^ 0xc41f);
+            for i in 0..(if thorough { 400 } else { 60 }) {
+                let mut r = rng.fork(i as u64);
+                bases.push((format!("gen{}", i), gen_program(&mut r, 2)));
+            }
+            for (p, t) in bases {
+                texts.push((format!("crlf:{}|lf", p), "crlf".into(), t.clone()));
+                texts.push((format!("crlf:{}|crlf", p), "crlf".into(), t.replace('\n', "\r\n")));
+            }
+        }
         "texts" => {
             let mut inp = String::new();
             let _ = std::io::stdin().read_to_string(&mut inp);
